@@ -5,7 +5,7 @@
 set -u
 NAME=$1; PROP=$2; WT=$3; SD=$4; INSTALL=$5; UNINSTALL=$6; DEMO=$7
 OUT=/verif/seeded/$NAME; mkdir -p "$OUT"
-export CARGO_TARGET_DIR=/tmp/seed-target CARGO_NET_OFFLINE=true RUST_BACKTRACE=0
+export CARGO_TARGET_DIR=${SEED_TARGET:-/tmp/seed-target} CARGO_NET_OFFLINE=true RUST_BACKTRACE=0
 LOG=$OUT/confirm.log; : > "$LOG"
 cd "$WT" || exit 2
 git checkout -q -- . ; git clean -fdq
